@@ -224,6 +224,9 @@ class Sym:
                                     res = (l0, ("deref",))
                                 else:
                                     res = self.ptr_root(l0, depth + 1)
+                                if res is not None and cal.name == "IndexMut::index_mut":
+                                    # the reference points at one element of the root
+                                    res = (res[0], tuple(res[1]) + (("idxv", ("unknown", "index_mut", None)),))
         self._ptr_cache[local] = res
         return res
 
